@@ -1,0 +1,24 @@
+//go:build verif
+
+// Contracts for deductive verification (comment-only; read by /verif/govc, never compiled into the product).
+
+package task
+
+//@ func (s Status) X(other Status) Status
+//@   property C11
+//@   inline
+//@   opt init-globals=task.STATUS_PRODUCT
+
+//@ ghost pure func validStatus(s Status) bool = s <= UNDEPLOYABLE
+
+//@ lemma SX_comm C11: forall a Status, b Status :: a.X(b) == b.X(a)
+//@ lemma SX_assoc C11: forall a Status, b Status, c Status ::
+//@     validStatus(a) && validStatus(b) && validStatus(c) ==> a.X(b).X(c) == a.X(b.X(c))
+//@ lemma SX_idem C11: forall a Status :: validStatus(a) ==> a.X(a) == a
+//@ lemma SX_undefined_absorbs C11: forall a Status :: a.X(UNDEFINED) == UNDEFINED
+//@ lemma SX_out_of_range_undefined C11: forall a Status, b Status :: !validStatus(a) || !validStatus(b) ==> a.X(b) == UNDEFINED
+//@ lemma SX_undeployable_dominates C11: forall a Status ::
+//@     validStatus(a) && a != UNDEFINED ==> a.X(UNDEPLOYABLE) == UNDEPLOYABLE
+//@ lemma SX_missing_is_partial C11: forall a Status, b Status ::
+//@     (a == INACTIVE || a == PARTIAL || a == ACTIVE) && (b == INACTIVE || b == PARTIAL || b == ACTIVE) && a != b ==> a.X(b) == PARTIAL
+//@ lemma SX_closed C11: forall a Status, b Status :: validStatus(a.X(b))
